@@ -272,6 +272,11 @@ func copyMap(m map[string]any) map[string]any {
 
 func checkCodec(c *core.Check, which string) {
 	var plans []*driver.ReadPlan
+	// the spellings valid documents are written in (spec/Spelling.tla; C08 owns the design check)
+	spells := spellPlans(c, which == "c08")
+	if spells == nil {
+		return
+	}
 	c.Assumptions = []string{
 		"values are compared by projection: nil and empty collections are identified, times are instants, floats by their shortest representation (DESIGN §11)",
 		"oneOf: only schemas with pairwise exclusive variants, and only values with exactly one variant set",
@@ -428,11 +433,11 @@ func checkCodec(c *core.Check, which string) {
 				esc := false
 				if caseN%3 == 0 {
 					// the same document as another producer would spell it (escapes, white space)
-					full := caseN%2 == 0
+					sp := spells[(caseN/3)%len(spells)]
 					var dv any
 					json.Unmarshal(bs, &dv)
-					bs = respellJSON(bs, rng, full)
-					esc = full && escapedTimeInCollection(rs, dv)
+					bs = respellJSON(bs, sp)
+					esc = sp.escapes() && escapedTimeInCollection(rs, dv)
 				}
 				g.Codec = append(g.Codec, driver.CodecCase{ID: cid, Type: tn, Op: "decode", Doc: base64.StdEncoding.EncodeToString(bs)})
 				metas[cid] = meta{typ: id + "/" + tn, sch: rs, doc: bs, mut: dc.mut, prop: dc.prop, esc: esc}
@@ -470,11 +475,11 @@ func checkCodec(c *core.Check, which string) {
 					bs, _ := json.Marshal(dc.doc)
 					esc := false
 					if caseN%3 == 0 {
-						full := caseN%2 == 0
+						sp := spells[(caseN/3)%len(spells)]
 						var dv any
 						json.Unmarshal(bs, &dv)
-						bs = respellJSON(bs, rng, full)
-						esc = full && escapedTimeInCollection(rs, dv)
+						bs = respellJSON(bs, sp)
+						esc = sp.escapes() && escapedTimeInCollection(rs, dv)
 					}
 					bg.Cases = append(bg.Cases, driver.ReqCase{ID: cid, Method: "POST", Path: "/body/" + strings.ToLower(tn), Headers: map[string][]string{"Content-Type": {"application/json"}},
 						Body: string(bs), HasBody: true, Chunked: caseN%2 == 0, Reads: plans[caseN%len(plans)], Script: driver.Script{Parse: true}})
